@@ -324,7 +324,8 @@ def validate_traces(tag, rec_dir, timeout_s=1800, parallel=None):
             e = json.loads(line)
             viols.append({"kind": e["kind"], "pat_s": e.get("pat_s"), "flags": e.get("flags"), "x": e.get("x", True),
                           "unopt": e.get("unopt", False), "s_s": e.get("s_s"), "call": e.get("call"),
-                          "expected": None, "observed": {"k": e["kind"]}, "cut": 0})
+                          "expected": e.get("expected"), "observed": e.get("observed", {"k": e["kind"]}),
+                          "cut": e.get("cut", 0)})
     totals["wall_s"] = round(time.time() - t0, 1)
     log("trace stage %s: %d files, %d events, %d compared, %d weak, %d unspec, %d mismatches, %.1fs" % (
         tag, totals["files"], totals["lines"], totals["compared"], totals["weak"], totals["unspec"], len(viols),
